@@ -415,6 +415,10 @@ func isNullableTypeNamed(t *ast.Type, typename string) bool {
 }
 
 func isNodeField(f *ast.FieldDefinition) bool {
+	// only the Relay lookup itself is special, not every field of its shape
+	if f.Name != common.NodeFieldName {
+		return false
+	}
 	if common.IsNodeInterfaceName(f.Name) || len(f.Arguments) != 1 {
 		return false
 	}
